@@ -30,6 +30,46 @@ def main():
     aborted = False
     try:
         drivers.DRIVERS[prop](ctx)
+        # history insensitivity of the property's OWN calls: a sample of the stateless events of this trace is executed
+        # again after a storm of unrelated calls (failures included) in the same interpreter and judged again
+        if prop not in ('C14', 'C17'):
+            import rerun
+            cand = [e for e in ctx.rec.events if e['a'] in rerun.STATELESS and len(json.dumps(e)) < 60000]
+            ctx.rng.shuffle(cand)
+            # stratified: a few of every (action, label) kind, so that rare families are probed again too
+            per, sample = {}, []
+            cap = 6 if ctx.quick else 60
+            for e in cand:
+                k = (e['a'], e.get('label') or e.get('sigx') or '')
+                if per.get(k, 0) < cap:
+                    per[k] = per.get(k, 0) + 1
+                    sample.append(e)
+            sample = sample[:400 if ctx.quick else 4000]
+            if sample:
+                drivers.generic_storm(ctx)
+                ctx.rec.add('Toggle', [prop], **__import__('actions').toggle('false'))
+                if prop == 'C15':
+                    ctx.rec.add('SetTZ', [prop], **__import__('actions').set_tz('UTC'))
+                if prop in ('C03', 'C04', 'C10', 'C12', 'C16', 'C01', 'C02'):
+                    from abstraction import concrete, concrete_frame
+                    vals, frs = [], []
+                    for e in sample:
+                        try:
+                            if e['a'] == 'EncodeValue' and e['in']['t'] in ('table', 'array') and len(vals) < 40:
+                                vals.append(concrete(e['in']))
+                            elif e['a'] == 'RoundTrip' and len(frs) < 40:
+                                frs.append(concrete_frame(e['in']))
+                        except Exception:  # noqa
+                            pass
+                    drivers.encode_mutate_encode(ctx, [prop], vals, frs)
+                for e in sample:
+                    again, done = rerun._last(e)
+                    if done:
+                        again = {k: v for k, v in again.items() if k not in ('id', 'a', 'p', 'session')}
+                        again['phase'] = 'after-storm'
+                        if isinstance(e.get('out'), dict) and e['out'].get('r') in ('ok', 'exc') and e['a'] in ('EncodeValue', 'RoundTrip'):
+                            again['first'] = {'r': e['out']['r'], 'b': e['out'].get('b', [])}      # what the SAME call returned before the storm
+                        ctx.rec.add(e['a'], e['p'], **again)
     except (Exception, __import__('observers').BudgetExceeded) as e:  # noqa  (BudgetExceeded: the wall-clock guard fired)
         from abstraction import a_exc
         import traceback
@@ -37,48 +77,10 @@ def main():
         if not info['site']:
             raise            # nothing of pamqp in the traceback: the harness itself is at fault (exit 2)
         # the library refused a call this driver makes on every run: a verdict for TLC, not a crash
-        where = [f for f in traceback.extract_tb(e.__traceback__) if '/harness/' in f.filename]
+        where = [f for f in traceback.extract_tb(e.__traceback__) if '/harness/' in f.filename and 'observers' not in f.filename]
         ctx.rec.add('DriverAbort', [prop], nt=True, out=info, sigx='%s@%s' % (info['type'], info['site']),
                     where='%s:%s' % (where[-1].name, where[-1].lineno) if where else '?', msg=str(e)[:300])
         aborted = True
-    # history insensitivity of the property's OWN calls: a sample of the stateless events of this trace is executed
-    # again after a storm of unrelated calls (failures included) in the same interpreter and judged again
-    if prop not in ('C14', 'C17') and not aborted:
-        import rerun
-        cand = [e for e in ctx.rec.events if e['a'] in rerun.STATELESS and len(json.dumps(e)) < 60000]
-        ctx.rng.shuffle(cand)
-        # stratified: a few of every (action, label) kind, so that rare families are probed again too
-        per, sample = {}, []
-        cap = 6 if ctx.quick else 60
-        for e in cand:
-            k = (e['a'], e.get('label') or e.get('sigx') or '')
-            if per.get(k, 0) < cap:
-                per[k] = per.get(k, 0) + 1
-                sample.append(e)
-        sample = sample[:400 if ctx.quick else 4000]
-        if sample:
-            drivers.generic_storm(ctx)
-            ctx.rec.add('Toggle', [prop], **__import__('actions').toggle('false'))
-            if prop == 'C15':
-                ctx.rec.add('SetTZ', [prop], **__import__('actions').set_tz('UTC'))
-            if prop in ('C03', 'C04', 'C10', 'C12', 'C16', 'C01', 'C02'):
-                from abstraction import concrete, concrete_frame
-                vals, frs = [], []
-                for e in sample:
-                    try:
-                        if e['a'] == 'EncodeValue' and e['in']['t'] in ('table', 'array') and len(vals) < 40:
-                            vals.append(concrete(e['in']))
-                        elif e['a'] == 'RoundTrip' and len(frs) < 40:
-                            frs.append(concrete_frame(e['in']))
-                    except Exception:  # noqa
-                        pass
-                drivers.encode_mutate_encode(ctx, [prop], vals, frs)
-            for e in sample:
-                again, done = rerun._last(e)
-                if done:
-                    again = {k: v for k, v in again.items() if k not in ('id', 'a', 'p', 'session')}
-                    again['phase'] = 'after-storm'
-                    ctx.rec.add(e['a'], e['p'], **again)
     events = ctx.rec.events
     tlc.write_events(out, events)
     hashes = set()
